@@ -979,9 +979,51 @@ def oracle_bib(arg, out):
                 return 'text backend output of %r does not end with a sentence terminator: %r' % (key, ptxt)
     return None
 
+def spec_abbreviate_token(tok):
+    """first letter and a period for every piece (between whitespace / hyphens) that consists of letters"""
+    return ''.join((p[0] + '.') if p.isalpha() else p for p in re.split(r'([\s\-])', tok))
+
+def oracle_name(arg, out):
+    """name_tokens_emitted on the implementation: every name token of the person, abbreviated (first and middle
+    names, when asked) or in full, appears in the style's order with only spaces, ties and ", " around"""
+    p, lastfirst, abbr = arg
+    toks = []
+    try:
+        parts = [[_dec(S(n)) for n in part] for part in p]
+    except Exception:
+        return None
+    if not all(_balanced(n) for part in parts for n in part):
+        return None
+    if out[0] != 0:
+        return 'formatting a well-formed name raised'
+    f, m, pl, l, j = [[_strip_braces(n) for n in part] for part in parts]
+    if any(('{' in S(n) or '}' in S(n)) for part in p[:2] for n in part) and abbr:
+        return None      # abbreviation of brace-protected letters: left to the correspondence
+    fm = [spec_abbreviate_token(t) if abbr else t for t in f + m]
+    order = (pl + l + j + fm) if lastfirst else (fm + pl + l + j)
+    atoms = [chr(a[1]) if a[0] == 0 else '<%s>' % S(a[1]) for a, ms in expand(out[1])]
+    seps = (' ', ',', '<nbsp>')
+    def go(i, k):
+        if k == len(order):
+            return all(a in seps for a in atoms[i:])
+        t = order[k]
+        j0 = i
+        while True:
+            if atoms[j0:j0 + len(t)] == list(t) and go(j0 + len(t), k + 1):
+                return True
+            if j0 < len(atoms) and atoms[j0] in seps:
+                j0 += 1
+            else:
+                return False
+    if not go(0, 0):
+        return 'name tokens %r do not appear in this order with only separators around in %r' % (order, ''.join(atoms))
+    return None
+
 def oracle(fn, arg, out):
     if fn == 1:
         return oracle_bib(arg, out)
+    if fn == 5:
+        return oracle_name(arg, out)
     if fn == 8:
         if out[0] != 0 or [S(x) for x in out[1]] != [str(i + 1) for i in range(arg[0])]:
             return 'number labels are not 1..n'
@@ -1405,8 +1447,8 @@ def gen(tier, rng):
         yield (stream, fn, arg)
 
 def _marg_chunk(idx):
-    import marshal
-    return [marshal.dumps(norm(_model_arg(*_GEN_CASES[i]))) for i in idx]
+    import marshal, zlib
+    return [zlib.compress(marshal.dumps(norm(_model_arg(*_GEN_CASES[i]))), 1) for i in idx]
 
 def _precompute_margs():
     import multiprocessing as mp
@@ -1431,9 +1473,9 @@ def model_arg(fn, arg):
         i = _MARG_POS % len(_GEN_CASES)
         gfn, garg = _GEN_CASES[i]
         if gfn == fn and garg == arg:
-            import marshal
+            import marshal, zlib
             _MARG_POS += 1
-            return marshal.loads(_MARG[i])
+            return marshal.loads(zlib.decompress(_MARG[i]))
     return _model_arg(fn, arg)
 
 def describe(fn, arg):
